@@ -127,6 +127,13 @@ func Materialise(d Doc) (string, error) {
 		if err := os.MkdirAll(filepath.Dir(p), 0o755); err != nil {
 			return dir, err
 		}
+		if strings.HasSuffix(name, "@symlink") { // symbolic link: content is the target
+			_ = os.Remove(strings.TrimSuffix(p, "@symlink"))
+			if err := os.Symlink(string(content), strings.TrimSuffix(p, "@symlink")); err != nil {
+				return dir, err
+			}
+			continue
+		}
 		if strings.HasSuffix(name, "/") { // directory entry
 			if err := os.MkdirAll(p, 0o755); err != nil {
 				return dir, err
@@ -371,4 +378,30 @@ func RuntimeFaultText(s string) bool {
 		}
 	}
 	return false
+}
+
+// ExecFile validates a project whose root already exists on disk (no hooks, used by strace-observed helpers).
+func ExecFile(path string) *Obs {
+	o := &Obs{}
+	defer func() {
+		if r := recover(); r != nil {
+			o.Outcome = Panic
+			o.PanicVal = fmt.Sprint(r)
+		}
+	}()
+	j, err := kit.NewJapi(path)
+	if err != nil {
+		o.Outcome = NewError
+		o.NewErr = err.Error()
+		return o
+	}
+	if je := j.ValidateJAPI(); je != nil {
+		o.Outcome = Rejected
+		o.Msg = je.Msg
+		o.ErrText = je.Error()
+		return o
+	}
+	o.Outcome = Accepted
+	o.JSON, _ = j.ToJson()
+	return o
 }
